@@ -1,5 +1,5 @@
 for _p in ("C02", "C03"):
     H("procs_" + _p.lower(), _p, "sched", ["harness/procs_harness.cc"], sdk=BATCH_SDK,
-      args={"quick": ["--oracle=" + _p], "thorough": ["--oracle=" + _p]},
+      args={"quick": ["--oracle=" + _p], "thorough": ["--oracle=" + _p, "--budget=400"]},
       what="simple span/log processors called from several threads; provider-level ForceFlush/Shutdown through the real TracerProvider/LoggerProvider with {batch}, {simple,batch}, {batch,batch}; oracle " + _p,
       design_ref="5/" + _p)
